@@ -416,6 +416,9 @@ func genC13(seed uint64, tier string) *Plan {
 	if r.Chance(0.35) {
 		return genC13Conc(seed, tier)
 	}
+	if r.Chance(0.15) {
+		return genC13Crash(seed, tier)
+	}
 	p := genC04(seed^0x1313, tier)
 	p.Cfg.Primary = "multihash"
 	p.Cfg.Immutable = r.Chance(0.15)
@@ -436,6 +439,83 @@ func genC13(seed uint64, tier string) *Plan {
 	}
 	p.Ops = out
 	return p
+}
+
+// genC13Crash: the crash class of C13. A sequential history with frequent
+// primary GC cycles (freelist hand-over) is crashed at every mutating file
+// operation that touches the freelist file or its .gc hand-over file (plus a
+// few others); the recovered store runs three complete primary GC cycles and
+// every entry that was durable in the freelist file or the hand-over file at
+// the crash must then have been applied (crashEntriesApplied).
+func genC13Crash(seed uint64, tier string) *Plan {
+	r := simrt.NewRand(seed ^ 0x13c7a5)
+	p := genC03(seed^0x13c3, tier)
+	for p.Cfg.Primary != "multihash" || p.X["bg"] == 1 {
+		seed++
+		p = genC03(seed^0x13c3, tier)
+	}
+	p.X["c13crash"] = 1
+	if len(p.Keys) > 4 {
+		p.Keys = p.Keys[:4] // more overwrites
+	}
+	var out []Op
+	for _, o := range p.Ops {
+		if o.Key >= len(p.Keys) {
+			o.Key %= len(p.Keys)
+		}
+		out = append(out, o)
+		if (o.K == "put" || o.K == "remove") && r.Chance(0.35) {
+			out = append(out, Op{K: "flush"})
+		}
+		if r.Chance(0.25) {
+			op := Op{K: "pgc", A: []int{101, 101, 0, 50}[r.Intn(4)]}
+			if r.Chance(0.25) {
+				op.B = 1 + r.Intn(8) // interrupted: leaves the hand-over file behind
+			}
+			out = append(out, op)
+		}
+	}
+	p.Ops = out
+	return p
+}
+
+// crashEntriesApplied: entries is what the freelist file and the hand-over file
+// held in the crash image (whole 12-byte entries); a durable entry names a
+// location that the durable index no longer refers to (the commit writes the
+// freelist after the index), so after recovery and complete GC cycles its
+// record must be marked deleted or be gone. Entries whose record was not
+// intact in the image (never written, torn, already deleted or released) are
+// exempt.
+func crashEntriesApplied(img *simos.Image, pmax uint64) (check func(files map[string][]byte) (locKey, bool)) {
+	var ents []locKey
+	for _, name := range []string{indexPath + ".free", indexPath + ".free.gc"} {
+		for _, e := range parseFreeList(img.Files[name]) {
+			ents = append(ents, locKey{e.Off, e.Size})
+		}
+	}
+	intact := func(files map[string][]byte, k locKey) bool {
+		f, local := k.Off/pmax, k.Off%pmax
+		data, ok := files[fmt.Sprintf("%s.%d", dataPath, f)]
+		if !ok || local+4+uint64(k.Size) > uint64(len(data)) {
+			return false
+		}
+		sz := uint32(data[local]) | uint32(data[local+1])<<8 | uint32(data[local+2])<<16 | uint32(data[local+3])<<24
+		return sz == k.Size // not deleted, same size
+	}
+	var applicable []locKey
+	for _, k := range ents {
+		if intact(img.Files, k) {
+			applicable = append(applicable, k)
+		}
+	}
+	return func(files map[string][]byte) (locKey, bool) {
+		for _, k := range applicable {
+			if intact(files, k) {
+				return k, false
+			}
+		}
+		return locKey{}, true
+	}
 }
 
 // genC13Conc: writers on disjoint key sets + flusher + a GC task hammering the
